@@ -109,6 +109,9 @@ def check(ix, rep):
         for f, caller in chain2:
             ef = E.method_effects(f)
             guards = _guards(f.node)
+            # `if getattr(self, 'G', None) is None: return` says "not built yet" only while no constructor gives G a value: a G that __init__ sets
+            # to an (empty) object makes the test false from the start, and the guard protects nothing
+            guards = {g for g in guards if not (g in initd and not (isinstance(initd[g], ast.Constant) and initd[g].value is None))}
             cow = set(established.get(id(caller), set())) if caller is not None else set()
             if caller is not None:
                 cow |= set(E.method_effects(caller).writes)
